@@ -10,14 +10,23 @@ var svcPortNames = []string{"web", "api", "adm"}
 
 // GenIngressResources adds Services, Ingresses and Routes built around existing workloads so that the
 // Ingress/Route -> Service -> workload chain is engaged by construction.
-func GenIngressResources(r *rng.R, w *World) {
+func GenIngressResources(r *rng.R, w *World) { GenIngressResourcesTargeting(r, w, nil) }
+
+// GenIngressResourcesTargeting does the same and makes sure the workloads with the given indices are among the targeted ones.
+func GenIngressResourcesTargeting(r *rng.R, w *World, must []int) {
 	if len(w.Workloads) == 0 {
 		return
 	}
 	nt := r.Range(1, 3)
+	if nt < len(must) {
+		nt = len(must)
+	}
 	svcByNs := map[string][]int{}
 	for t := 0; t < nt; t++ {
 		wl := &w.Workloads[r.Intn(len(w.Workloads))]
+		if t < len(must) {
+			wl = &w.Workloads[must[t]]
+		}
 		if len(wl.Labels) == 0 {
 			wl.Labels = map[string]string{rng.Pick(r, Keys): rng.Pick(r, Vals)}
 		}
